@@ -2,6 +2,11 @@ import FormulaicVerif.Engines.Json
 import FormulaicVerif.Model.Structured
 import FormulaicVerif.Model.LayeredMapping
 import FormulaicVerif.Model.SimpleFormula
+import FormulaicVerif.Model.StructuredOps
+import FormulaicVerif.Model.LayeredOps
+import FormulaicVerif.Model.StructuredFormula
+import FormulaicVerif.Gen.Containers
+import FormulaicVerif.Model.OrderedSet
 /-! Engine of the `c19` correspondence stream: runs the container models on one JSON request.
 Only decoding/encoding lives here; every observable is computed by `Model.St`, `Model.LMap`,
 `Model.SFm`. -/
@@ -39,6 +44,12 @@ def stErr : St.Err → String
   | .merger => "NotImplementedError"
   | .outOfFuel => "outOfFuel"
 
+def soErr : StOps.Err → String
+  | .keyError => "KeyError"
+  | .indexError => "IndexError"
+  | .typeError => "TypeError"
+  | .attributeError => "AttributeError"
+
 def exJ (r : Except St.Err (St.Val String)) : Json :=
   match r with
   | .ok v => valJ v
@@ -54,6 +65,16 @@ def pathElemJ : St.PathElem → Json
 
 /-- the function the harness maps: `lambda x, ctx: x + "@" + ".".join(map(str, ctx))` -/
 def mapFn (a : String) (ctx : St.Path) : String := a ++ "@" ++ ".".intercalate (ctx.map pathElemStr)
+
+/-- the one-argument function the harness maps (reached through the `TypeError` fallback of `_map`) -/
+def mapFn1 (a : String) (_ : St.Path) : String := a ++ "!"
+
+/-- the function the harness maps with `recurse=False`: a nested `Structured` is described by its keys -/
+def mapFnNR (v : St.Val String) (ctx : St.Path) : String :=
+  (match v with
+   | .leaf a => a
+   | .node kvs => "S[" ++ ",".intercalate (kvs.map (·.1)) ++ "]"
+   | .tup _ => "T") ++ "@" ++ ".".intercalate (ctx.map pathElemStr)
 
 /-- the merger the harness passes: joins the leaves, raises on the leaf `bad` -/
 def merger (xs : List String) : Except St.Err String :=
@@ -92,14 +113,16 @@ def handleSt (j : Json) : Json :=
     | .arr #[.str k, v] => (k, valOf v)
     | _ => ("?", St.Val.leaf "?"))
   let setRes : St.Items String × List Json := sets.foldl (fun acc kv =>
-    match St.setItem acc.1 kv.1 kv.2 with
+    match StOps.setAny acc.1 (.plain (.str kv.1)) kv.2 with
     | .ok s' => (s', acc.2 ++ [Json.null])
-    | .error e => (acc.1, acc.2 ++ [Json.str (stErr e)])) (kvs, [])
+    | .error e => (acc.1, acc.2 ++ [Json.str (soErr e)])) (kvs, [])
   Json.mkObj [
     ("map", valJ ml.1),
     ("log", logJ ml.2),
     ("flat", jstrs (St.flatten s)),
     ("flat_mapped", jstrs (St.flatten ml.1)),
+    ("map1", valJ (St.mapV mapFn1 [] s)),
+    ("map_nr", valJ (StOps.mapTopNR mapFnNR kvs)),
     ("paths", jlist (ml.2.map (fun e => exJ (St.lookupPath e.2 s)))),
     ("simp", jlist (simp.map exJ)),
     ("simp_default_again", jlist simp2),
@@ -110,6 +133,146 @@ def handleSt (j : Json) : Json :=
     ("merge", exJ (St.mergeTop merger objs)),
     ("merge_more_fuel", exJ (St.merge merger (St.mergeFuel objs + 3) [] objs)),
     ("sets", Json.mkObj [("errs", jlist setRes.2), ("tree", valJ (.node setRes.1))])]
+
+/-! ### Structured: container protocol (`so`) -/
+def leafOfJ (j : Json) : StOps.Leaf :=
+  match j.getObjVal? "s" with
+  | .ok (.str s) => .str s
+  | _ =>
+    match j.getObjVal? "i" with
+    | .ok v => .int (asInt v)
+    | _ =>
+      match j.getObjVal? "L" with
+      | .ok (.arr a) => .list (a.toList.map asInt)
+      | _ =>
+        match j.getObjVal? "S" with
+        | .ok (.arr a) => .set (a.toList.map asInt)
+        | _ => .dict ((jarr j "D").map (fun kv =>
+            match kv with
+            | .arr #[.str k, v] => (k, asInt v)
+            | _ => ("?", 0)))
+
+def leafJ : StOps.Leaf → Json
+  | .str s => Json.mkObj [("s", Json.str s)]
+  | .int i => Json.mkObj [("i", Json.num i)]
+  | .list xs => Json.mkObj [("L", jlist (xs.map (fun (x : Int) => Json.num x)))]
+  | .set xs => Json.mkObj [("S", jlist ((xs.mergeSort (fun a b => decide (a ≤ b))).map (fun (x : Int) => Json.num x)))]
+  | .dict kvs => Json.mkObj [("D", jlist (kvs.map (fun kv => jlist [Json.str kv.1, Json.num (kv.2 : Int)])))]
+
+open St in
+partial def valOfL (j : Json) : Val StOps.Leaf :=
+  match j.getObjVal? "l" with
+  | .ok l => .leaf (leafOfJ l)
+  | _ =>
+    match j.getObjVal? "t" with
+    | .ok (.arr a) => .tup (a.toList.map valOfL)
+    | _ => .node ((jarr j "n").map (fun kv =>
+        match kv with
+        | .arr #[.str k, v] => (k, valOfL v)
+        | _ => ("?", .leaf (.str "?"))))
+
+open St in
+partial def valJL : Val StOps.Leaf → Json
+  | .leaf a => Json.mkObj [("l", leafJ a)]
+  | .tup vs => Json.mkObj [("t", jlist (vs.map valJL))]
+  | .node kvs => Json.mkObj [("n", jlist (kvs.map (fun kv => jlist [Json.str kv.1, valJL kv.2])))]
+
+/-- a `_to_dict` result; Python cannot tell a `dict` leaf from a converted `Structured`, so both are
+written `{"d": …}` (the harness does the same) -/
+partial def dvalJ : StOps.DVal StOps.Leaf → Json
+  | .leaf (.dict kvs) => Json.mkObj [("d", jlist (kvs.map (fun kv =>
+      jlist [Json.str kv.1, Json.mkObj [("l", Json.mkObj [("i", Json.num (kv.2 : Int))])]])))]
+  | .leaf a => Json.mkObj [("l", leafJ a)]
+  | .tup vs => Json.mkObj [("t", jlist (vs.map dvalJ))]
+  | .dict kvs => Json.mkObj [("d", jlist (kvs.map (fun kv => jlist [Json.str kv.1, dvalJ kv.2])))]
+  | .st v => valJL v
+
+def keyOfJ : Json → StOps.Key
+  | .str s => .str s
+  | .num n => .int (asInt (.num n))
+  | _ => .none
+
+def anyKeyOfJ (j : Json) : StOps.AnyKey :=
+  match j.getObjVal? "p" with
+  | .ok (.arr a) => .path (a.toList.map keyOfJ)
+  | _ => .plain (keyOfJ j)
+
+def soOpOf (j : Json) : StOps.Op StOps.Leaf :=
+  match jstr j "o" with
+  | "get" => .get (anyKeyOfJ (jval j "key"))
+  | "set" => .set (anyKeyOfJ (jval j "key")) (valOfL (jval j "v"))
+  | "getattr" => .getattr (jstr j "a")
+  | "setattr" => .setattr (jstr j "a") (valOfL (jval j "v"))
+  | "iter" => .iter
+  | "len" => .len
+  | "contains" => .contains (keyOfJ (jval j "key"))
+  | "eq" => .eq (valOfL (jval j "other"))
+  | _ => .toDict (jbool j "recurse")
+
+def soResJ : StOps.Res StOps.Leaf → Json
+  | .none => Json.null
+  | .val v => valJL v
+  | .vals vs => jlist (vs.map valJL)
+  | .nat n => Json.num n
+  | .bool b => Json.bool b
+  | .dict d => Json.mkObj [("d", jlist (d.map (fun kv => jlist [Json.str kv.1, dvalJ kv.2])))]
+  | .err e => jerr (soErr e)
+
+def exJL (r : Except St.Err (St.Val StOps.Leaf)) : Json :=
+  match r with
+  | .ok v => valJL v
+  | .error e => jerr (stErr e)
+
+def handleSo (j : Json) : Json :=
+  let kvs : St.Items StOps.Leaf := match valOfL (jval j "tree") with
+    | .node kvs => kvs
+    | _ => []
+  let ops := (jarr j "ops").map soOpOf
+  let tr := StOps.trace StOps.Leaf.ops kvs ops
+  let objs := (jarr j "merge").map valOfL
+  Json.mkObj [
+    ("trace", jlist (tr.map (fun r => Json.mkObj [("res", soResJ r.2), ("state", valJL (.node r.1))]))),
+    ("final", valJL (.node (StOps.run StOps.Leaf.ops kvs ops))),
+    ("merge", exJL (StOps.mergeDefault objs))]
+
+/-! ### StructuredFormula constructor (`stf`) -/
+def handleStf (j : Json) : Json :=
+  let kvs := itemsOfJ (jval j "tree")
+  Json.mkObj [
+    ("ctor", exJ (StF.sfCtor kvs)),
+    ("call", exJ (StF.formulaCall kvs))]
+
+/-! ### OrderedSet (`os`) -/
+def osOtherOf (j : Json) : OSet.Other :=
+  if jbool j "isset" then .set (OSet.mk (strs j "xs")) else .list (strs j "xs")
+
+def osOpOf (j : Json) : OSet.Op :=
+  let b := osOtherOf j
+  match jstr j "o" with
+  | "or" => .union b
+  | "and" => .inter b
+  | "sub" => .diff b
+  | "rsub" => .rdiff b
+  | "xor" => .xor b
+  | "isdisjoint" => .isdisjoint b
+  | "contains" => .contains (jstr j "x")
+  | c => .cmp (match c with
+      | "le" => .le | "lt" => .lt | "ge" => .ge | "gt" => .gt | _ => .eq) b
+
+def osResJ : OSet.Res → Json
+  | .none => Json.null
+  | .bool b => Json.bool b
+  | .err _ => jerr "TypeError"
+
+def handleOs (j : Json) : Json :=
+  let a := OSet.mk (strs j "xs")
+  let ops := (jarr j "ops").map osOpOf
+  Json.mkObj [
+    ("init", jstrs (OSet.iter a)),
+    ("len", Json.num (OSet.len a)),
+    ("trace", jlist ((OSet.trace a ops).map (fun r =>
+      Json.mkObj [("items", jstrs (OSet.iter r.1)), ("len", Json.num (OSet.len r.1)), ("res", osResJ r.2)]))),
+    ("final", jstrs (OSet.run a ops))]
 
 /-! ### LayeredMapping -/
 open LMap in
@@ -130,13 +293,6 @@ def optStrJ : Option String → Json
   | some s => Json.str s
   | none => Json.null
 
-def lmObs (m : LMap.LM Json) (err : Json) : Json :=
-  Json.mkObj [
-    ("err", err),
-    ("view", jlist (m.view.map (fun kv => jlist [Json.str kv.1, kv.2.getD (Json.str "<KeyError>")]))),
-    ("len", Json.num m.len),
-    ("name", optStrJ m.name)]
-
 def lmOpOf (j : Json) : LMap.Op Json :=
   match jstr j "o" with
   | "set" => .set (jstr j "k") (jval j "v")
@@ -148,22 +304,61 @@ def lmOpOf (j : Json) : LMap.Op Json :=
     .withLayers (((jarr j "layers").filter (fun l => !(l == Json.null))).map layerOf)
       (jbool j "prepend") (jbool j "inplace") name
 
+def kvOfJ (x : Json) : String × Json :=
+  match x with
+  | .arr #[.str k, v] => (k, v)
+  | _ => ("?", Json.null)
+
+def lmOpXOf (j : Json) : LMapX.Op Json :=
+  match jstr j "o" with
+  | "pop" => .pop (jstr j "k") (if jbool j "hasd" then some (jval j "d") else none)
+  | "popitem" => .popitem
+  | "clear" => .clear
+  | "setdefault" => .setdefault (jstr j "k") (jval j "d")
+  | "update" => .update ((jarr j "pairs").map kvOfJ)
+  | "ext" => .ext ((jarr j "path").map asNat) (jstr j "k") (if jbool j "del" then none else some (jval j "v"))
+  | _ => .base (lmOpOf j)
+
+partial def layerJ : LMap.Layer Json → Json
+  | .dict d => Json.mkObj [("d", jlist (d.map (fun kv => jlist [Json.str kv.1, kv.2])))]
+  | .lm name muts layers => Json.mkObj [
+      ("name", optStrJ name),
+      ("m", jlist (muts.map (fun kv => jlist [Json.str kv.1, kv.2]))),
+      ("layers", jlist (layers.map layerJ))]
+
+def lmResJ : LMapX.Res Json → Json
+  | .none => Json.null
+  | .val v => Json.mkObj [("v", v)]
+  | .item k v => Json.mkObj [("item", jlist [Json.str k, v])]
+
+def lmErrJ : LMapX.Err → Json
+  | .keyError => Json.str "KeyError"
+  | .attributeError => Json.str "AttributeError"
+
+def lmObsX (m : LMap.LM Json) (r : Except LMapX.Err (LMapX.Res Json)) : Json :=
+  Json.mkObj [
+    ("err", match r with | .ok _ => Json.null | .error e => lmErrJ e),
+    ("res", match r with | .ok x => lmResJ x | .error _ => Json.null),
+    ("view", jlist (m.view.map (fun kv => jlist [Json.str kv.1, kv.2.getD (Json.str "<KeyError>")]))),
+    ("len", Json.num m.len),
+    ("name", optStrJ m.name),
+    ("named", jlist ((LMapX.namedLayers m).map (fun kv => jlist [Json.str kv.1, layerJ kv.2])))]
+
 def handleLm (j : Json) : Json :=
   let name := match j.getObjVal? "name" with
     | .ok (.str s) => some s
     | _ => none
   let m0 : LMap.LM Json := { name := name, muts := [], layers := ((jarr j "layers").filter (fun l => !(l == Json.null))).map layerOf }
-  let ops := (jarr j "ops").map lmOpOf
-  let res : LMap.LM Json × List Json := ops.foldl (fun acc op =>
-    match LMap.step acc.1 op with
-    | .ok m' => (m', acc.2 ++ [lmObs m' Json.null])
-    | .error _ => (acc.1, acc.2 ++ [lmObs acc.1 (Json.str "KeyError")])) (m0, [])
-  let m := res.1
+  let ops := (jarr j "ops").map lmOpXOf
+  let tr := LMapX.trace m0 ops
+  let m := LMapX.run m0 ops
   let probe := strs j "probe"
   Json.mkObj [
-    ("init", lmObs m0 Json.null),
-    ("trace", jlist res.2),
-    ("final_is_run", Json.bool ((LMap.run m0 ops).view.map (·.1) == m.view.map (·.1))),
+    ("init", lmObsX m0 (.ok .none)),
+    ("trace", jlist (tr.map (fun r => lmObsX r.1 r.2))),
+    ("final_is_run", Json.bool (match tr.getLast? with
+      | some r => r.1.view.map (·.1) == m.view.map (·.1) && r.1.muts.map (·.1) == m.muts.map (·.1)
+      | none => true)),
     ("probe", jlist (probe.map (fun k =>
       Json.mkObj [
         ("k", Json.str k),
@@ -171,7 +366,12 @@ def handleLm (j : Json) : Json :=
         ("get", (m.get k).getD (Json.str "<KeyError>")),
         ("named", match m.getWithLayerName k with
           | some (v, n) => jlist [v, optStrJ n]
-          | none => jlist [Json.null, Json.null])])))]
+          | none => jlist [Json.null, Json.null]),
+        ("layer_name", optStrJ (LMapX.layerNameForKey m k))]))),
+    ("attrs", jlist ((strs j "attrs").map (fun a =>
+      match LMapX.getAttr m a with
+      | .ok l => layerJ l
+      | .error e => lmErrJ e)))]
 
 /-! ### SimpleFormula -/
 def evalOf : String → EvalMethod
@@ -189,6 +389,11 @@ def optTermOf (j : Json) : Option Model.Term :=
   | .arr _ => some (termOf j)
   | _ => none
 
+def optIntOf (j : Json) (k : String) : Option Int :=
+  match j.getObjVal? k with
+  | .ok (.num n) => some (asInt (.num n))
+  | _ => none
+
 def sfOpOf (j : Json) : SFm.Op :=
   match jstr j "o" with
   | "insert" => .insert (jint j "i") (optTermOf (jval j "t"))
@@ -198,31 +403,70 @@ def sfOpOf (j : Json) : SFm.Op :=
   | "append" => .append (optTermOf (jval j "t"))
   | "extend" => .extend ((jarr j "ts").map optTermOf)
   | "pop" => .pop (jint j "i")
+  | "iadd" => .iadd ((jarr j "ts").map optTermOf)
+  | "setslice" => .setSlice (optIntOf j "a") (optIntOf j "b") (jint j "c")
+      (match j.getObjVal? "ts" with
+       | .ok (.arr a) => .list (a.toList.map optTermOf)
+       | _ => .term (termOf (jval j "t")))
+  | "delslicex" => .delSliceX (optIntOf j "a") (optIntOf j "b") (jint j "c")
+  | "clear" => .clear
+  | "remove" => .remove (optTermOf (jval j "t"))
+  | "getslice" => .getSlice (optIntOf j "a") (optIntOf j "b") (jint j "c")
+  | "index" => .index (optTermOf (jval j "t"))
+  | "count" => .count (optTermOf (jval j "t"))
+  | "contains" => .contains (optTermOf (jval j "t"))
+  | "reversed" => .reversed
+  | "eq" => .eq ((jarr j "other").map termOf)
+  | "eqforeign" => .eqForeign
   | _ => .reverse
 
 def sfErrJ : Option SFm.Err → Json
   | none => Json.null
   | some .indexError => Json.str "IndexError"
   | some .invalid => Json.str "FormulaInvalidError"
+  | some .typeError => Json.str "TypeError"
+  | some .valueError => Json.str "ValueError"
+
+def sfResJ : SFm.Res → Json
+  | .none => Json.null
+  | .terms ts => Json.mkObj [("terms", jlist (ts.map termJ))]
+  | .nat n => Json.mkObj [("n", Json.num n)]
+  | .bool b => Json.mkObj [("b", Json.bool b)]
+
+/-- the value each operation returns, computed on the state BEFORE it -/
+def sfResults (o : SFm.Ordering) : List Model.Term → List SFm.Op → List SFm.Res
+  | _, [] => []
+  | l, op :: ops => SFm.result o l op :: sfResults o (SFm.step o l op).1 ops
 
 def handleSf (j : Json) : Json :=
-  let o : SFm.Ordering := match jstr j "ordering" with
-    | "degree" => .degree
-    | "sort" => .sort
-    | _ => .none
+  -- the ordering names come from the live `OrderingMethod` enum (`Gen/Containers.lean`)
+  let o : SFm.Ordering :=
+    ((Gen.Containers.orderingValues.zip [SFm.Ordering.none, .degree, .sort]).lookup (jstr j "ordering")).getD .none
   let l0 := SFm.init o ((jarr j "terms").map termOf)
   let ops := (jarr j "ops").map sfOpOf
   let tr := SFm.trace o l0 ops
+  let rs := sfResults o l0 ops
   Json.mkObj [
     ("init", jlist (l0.map termJ)),
-    ("trace", jlist (tr.map (fun r =>
-      Json.mkObj [("terms", jlist (r.1.map termJ)), ("err", sfErrJ r.2)]))),
-    ("final", jlist ((SFm.run o l0 ops).map termJ))]
+    ("trace", jlist ((tr.zip rs).map (fun x =>
+      Json.mkObj [("terms", jlist (x.1.1.map termJ)), ("err", sfErrJ x.1.2), ("res", sfResJ x.2)]))),
+    ("final", jlist ((SFm.run o l0 ops).map termJ)),
+    ("ctors", jlist ((jarr j "ctors").map (fun c =>
+      let arg : SFm.CtorArg := match jstr c "arg" with
+        | "missing" => .missing
+        | "notterms" => .notTerms
+        | _ => .terms ((jarr c "ts").map optTermOf)
+      match SFm.construct o arg (jbool c "kw") with
+      | .ok l => jlist (l.map termJ)
+      | .error e => sfErrJ (some e))))]
 
 /-- request: `{"op": "st" | "lm" | "sf", …}` -/
 def handle (j : Json) : Json :=
   match jstr j "op" with
   | "st" => handleSt j
+  | "so" => handleSo j
+  | "stf" => handleStf j
+  | "os" => handleOs j
   | "lm" => handleLm j
   | "sf" => handleSf j
   | o => jerr ("unknown op " ++ o)
